@@ -260,7 +260,7 @@ func (m *MemMapFs) OpenFile(name string, flag int, perm os.FileMode) (File, erro
 	if err != nil {
 		return nil, err
 	}
-	if flag == os.O_RDONLY {
+	if flag&(os.O_WRONLY|os.O_RDWR) == 0 {
 		file = mem.NewReadOnlyFileHandle(file.(*mem.File).Data())
 	}
 	if flag&os.O_APPEND > 0 {
